@@ -12,7 +12,7 @@ clean before and is left clean. Results go to /verif/seeded/ID/result.json.
 import argparse, json, os, re, shutil, subprocess, sys, time
 
 VERIF = os.path.dirname(os.path.dirname(os.path.abspath(__file__)))
-REPO = "/repo"
+REPO = os.environ.get("VERIF_REPO", "/repo")  # a scratch worktree of /repo when something else is using /repo itself
 
 
 def sh(cmd, **kw):
